@@ -66,7 +66,7 @@ def catalogue(tier):
 
 def cases(tier, seed):
     out = []
-    scales = [1.0, 2.0 ** -10, 2.0 ** 12] if tier == "thorough" else [1.0, 2.0 ** 12]
+    scales = [1.0, 2.0 ** -10, 2.0 ** 12, 2.0 ** -20, 2.0 ** -40, 2.0 ** 40] if tier == "thorough" else [1.0, 2.0 ** 12, 2.0 ** -20, 2.0 ** -40]
     for name, M, cls in catalogue(tier):
         for scl in scales:
             for fmt in ("coo", "csr", "csc"):
@@ -171,8 +171,10 @@ def run_case(case):
                             bad("lu_residual", f"backward error {r / (nA * nx + nb):.2e}", at)
                     elif sname == "GMRES":
                         # never returns a vector above its tolerance (singular systems included)
-                        if r > max(1e-8, 1e-5 * nb) * 1.01:
-                            bad("gmres_unconverged_returned", f"returned residual {r:.3e} > max(1e-8,1e-5|b|)={max(1e-8, 1e-5 * nb):.3e}", at)
+                        # (the absolute part of the tolerance is applied to the maximum norm when a guess is given: sqrt(n) in the 2-norm)
+                        gt = max(1e-8 * np.sqrt(n), 1e-5 * nb)
+                        if r > gt * 1.01:
+                            bad("gmres_unconverged_returned", f"returned residual {r:.3e} > max(1e-8 sqrt(n),1e-5|b|)={gt:.3e}", at)
                     else:
                         if cls in ("sym", "unsym") and cond <= 1e4 and r > 1e-5 * (nA * nx + nb) * 1.01:
                             bad("minres_residual", f"returned residual {r:.3e} > 1e-5(|A||x|+|b|)={1e-5 * (nA * nx + nb):.3e} (cond {cond:.1e})", at)
